@@ -13,6 +13,10 @@ CHECKS = {
    text="PARTIAL for comment bodies. Lean theorems: every chunk's text / every comment's recorded ops are emitted exactly once and in order (render_vis); a literal's text is written verbatim with is_literal (literal_verbatim, text_chunk_verbatim: tabs survive, only pending blanks precede it); the permitted comment normalisation is idempotent and identifies exactly the texts that differ by re-indentation/trailing blanks (C03_norm_idem, C03_norm_relayout). Tie: hook-trace replay through Render; monitors on the dumps (comment chunks at P1 = at P0, code text unchanged). Oracle: comments and literals extracted from input and output by the independent specification lexer: literals byte-identical, comments equal after the permitted normalisation, same order",
    note="the comment writers (2000 lines) are an oracle: comment bodies are checked by the oracle and the op-trace tie, not proved; C family only for the independent extraction",
    technique="Lean 4 proof over hand-written models + hook correspondence + monitors + independent extraction oracle"),
+ "C05": dict(level="proof", design="6/C05",
+   text="PARTIAL. Lean theorems: idempotence of the modelled appliers - the space_text() arithmetic re-reading its own gap reproduces it for every decision value (C05_space_apply_idem), the file-edge blank-line policy is idempotent, indentation does not read original columns - under a stable decision oracle. The fixed point of the whole program additionally needs that the heuristic decision passes answer the second run as the first; that is OBSERVED: the complete fixed universe (every C/C++ corpus file x every profile in /verif/profiles, three passes + --check) is enumerated in every tier with 34 individually listed exceptions, plus generated programs x profiles (instabilities keyed by root-cause class), plus the weaker claim (second pass accepts the first pass's output) on corpus x test configs",
+   note="trusted: applier models tied to the code by the C19/C17/C18 checks; oracle stability is observed, not proved; quick tier uses a fixed set of generated programs plus a small seed-dependent part",
+   technique="Lean 4 proof of applier idempotence + exhaustive enumeration of the fixed universe with listed exceptions"),
  "C06": dict(level="proof", design="6/C06",
    text="PARTIAL. Proved (Lean, over a table regenerated from the source each run): every exit()/main-return status in the sources is a documented status; the newline loop runs at most four times. Everything else the property says - no signal, no memory-safety/UB fault, bounded time, nothing on stdout when refused, a diagnostic on stderr - cannot be exhibited by an executable model and is EXPLORED: mutated corpus inputs (truncations, bracket/token edits, unterminated constructs, byte flips, random bytes, foreign language) in all nine languages under their test configs with a timeout; quick = fixed universe + seed-dependent part on the release build, thorough = seed-dependent on the ASan+UBSan build. Failures are identified by call site (gdb: pass + innermost function) for the known-findings list",
    note="exploration, not proof, for memory safety / UB / hangs (DESIGN.md 6/C06, 10); trusted: T-exit translator, timeout 20 s, gdb signatures; known defects of the unchanged tree listed by call site in known_findings.json",
